@@ -91,6 +91,7 @@ Ltac zbool_in H :=
 Ltac bsplit :=
   repeat match goal with
   | H : _ && _ = true |- _ => apply andb_prop in H; destruct H
+  | H : _ || _ = false |- _ => apply orb_false_elim in H; destruct H
   | H : is_u8 _ = true |- _ => unfold is_u8 in H
   | H : is_u16 _ = true |- _ => unfold is_u16 in H
   | H : is_u32 _ = true |- _ => unfold is_u32 in H
